@@ -48,6 +48,9 @@ const char* const K_DESER = "C16|varopt|update-after-deserialize-throws-logic_er
 const char* const K_DESER_U = "C16|varopt_union|update-or-get_result-after-union-deserialize-throws-logic_error|gadget-in-sampling-mode(r>0)";
 const char* const K_LIGHT_H = "C16|varopt_union|update-after-get_result-throws-logic_error|pseudo-exact-gadget-with-unmarked-item-lighter-than-outer-tau";
 const char* const K_XFER = "C16|varopt_union|get_result-throws-logic_error(transferred-weight-mismatch)|pseudo-exact-gadget,equal-tau-inputs,large-weights";
+const char* const K_TIE = "C16|varopt|update-throws-logic_error(not-in-valid-estimation-mode)|H-item-equal-to-tau-up-to-rounding,non-dyadic-weights";
+const char* const K_TIE_U = "C16|varopt_union|update-or-get_result-throws-logic_error(not-in-valid-estimation-mode)|gadget-H-item-equal-to-tau-up-to-rounding,non-dyadic-weights";
+const char* const K_HEAP = "C16|varopt_union|updates-after-get_result-misplace-heavy-items|pseudo-exact-result-whose-H-region-is-not-a-heap";
 const char* const K_RESET = "C16|varopt|reset-after-deserialize-writes-past-allocation|warm-up-image-with-fewer-slots-than-initial-allocation,reset,updates";
 
 const double REL = 1e-9;
@@ -107,6 +110,7 @@ struct Model {
   const char* deser_key = nullptr;  // object descends from deserialize() of a sampling-mode image
   bool deser_warm = false;          // object descends from deserialize() of a warm-up image
   bool light_h = false;             // observed an H item lighter than tau (union results only)
+  bool unheaped = false;            // descends from a union result whose H region (array order = iteration order) is not a min-heap
 };
 
 // ---------------------------------------------------------------- observation through the public API
@@ -174,7 +178,7 @@ double tau_ref(std::vector<double>& w, uint32_t k, uint32_t& heavy) {
 }
 
 template <class T>
-Obs check_sketch(const var_opt_sketch<T>& sk, Model& m, const std::string& where) {
+Obs check_sketch_impl(const var_opt_sketch<T>& sk, Model& m, const std::string& where) {
   const std::vector<double>& wt = G->wt;
   Obs o = observe(sk);
   VF_CHECK(o.n == m.n, "n", std::setprecision(17) << where << ": get_n " << o.n << " model " << m.n);
@@ -283,6 +287,16 @@ Obs check_sketch(const var_opt_sketch<T>& sk, Model& m, const std::string& where
   return o;
 }
 
+template <class T>
+Obs check_sketch(const var_opt_sketch<T>& sk, Model& m, const std::string& where) {
+  if (!m.unheaped) return check_sketch_impl(sk, m, where);
+  try { return check_sketch_impl(sk, m, where); }
+  catch (const vf::Failure& f) {
+    if (!f.key.empty()) throw;
+    vf::fail(f.check, f.msg + " [the sketch descends from a pseudo-exact union result whose H region was not a heap]", K_HEAP);
+  }
+}
+
 // ---------------------------------------------------------------- feeding
 double special_weight(uint64_t sel, double tau) {
   const double t = tau > 0 ? tau : 1.0;
@@ -323,7 +337,17 @@ void feed(var_opt_sketch<T>& sk, Model& m, double w, bool plain_weight) {
     return;
   } catch (const std::logic_error& e) {
     if (m.deser_key) VF_CHECK_K(false, "update-logic-error", m.deser_key, "update(weight " << w << ") on a sketch that went through deserialize() throws logic_error: " << e.what());
+    if (m.unheaped) VF_CHECK_K(false, "update-logic-error", K_HEAP, "update(weight " << w << ") on a sketch that descends from a pseudo-exact union result with unordered H throws logic_error: " << e.what());
     if (m.light_h) VF_CHECK_K(false, "update-logic-error", K_LIGHT_H, "update(weight " << w << ") on a union result throws logic_error: " << e.what());
+    if (std::string(e.what()).find("valid estimation mode") != std::string::npos && !m.exact) {
+      // shape of the rounding defect: the lightest H item equals tau up to rounding (the library's own lightness test let it
+      // stay in H). The throw happens before the sketch is modified, so the state can still be observed.
+      const Obs o = observe(sk);
+      double mn = std::numeric_limits<double>::infinity();
+      for (uint32_t i = 0; i < o.h && i < o.s.size(); ++i) mn = std::min(mn, o.s[i].second);
+      if (o.r > 0 && std::fabs(mn - o.tau) <= REL * o.tau)
+        VF_CHECK_K(false, "update-logic-error", K_TIE, std::setprecision(17) << "update(weight " << w << ") throws logic_error: " << e.what() << "; lightest H item " << mn << ", tau " << o.tau << " (k " << o.k << ", n " << m.n << ")");
+    }
     VF_CHECK(false, "update-logic-error", "update(weight " << w << ") throws logic_error: " << e.what() << " (n " << m.n << ")");
   }
   if (!counted) { G->labels.insert("zero-weight-ignored"); return; }
@@ -376,6 +400,8 @@ uint32_t initial_alloc(uint32_t k, uint32_t lg_rf) {
   if (w.find("transferred weight") != std::string::npos)
     VF_CHECK_K(false, "union-throws", K_XFER, what << " throws logic_error: " << w);
   if (u_deser_sampling) VF_CHECK_K(false, "union-throws", K_DESER_U, what << " on a deserialized union throws logic_error: " << w);
+  if (w.find("valid estimation mode") != std::string::npos && !G->exact_scale)
+    VF_CHECK_K(false, "union-throws", K_TIE_U, what << " throws logic_error with non-dyadic weights: " << w);
   VF_CHECK(false, "union-throws", what << " throws logic_error: " << w);
   throw;  // not reached
 }
@@ -434,8 +460,8 @@ void op_ser(Slot<T>& s, uint64_t mode) {
   Model dm = s.m;
   if (sampling) dm.deser_key = K_DESER; else if (o0.n > 0) dm.deser_warm = true;
   { Model tmp = dm; check_sketch(d2, tmp, "deserialized"); }
-  if (mode & 2) { probe_update(d2, dm, "deserialized"); G->labels.insert("deser-then-update"); }
-  if (mode & 1) {
+  if (((mode >> 5) & 3) == 3) { probe_update(d2, dm, "deserialized"); G->labels.insert("deser-then-update"); }
+  if ((mode & 1) && ((mode & 128) || !sampling)) {
     if (mode & 16) s.sk = std::move(d2); else s.sk = std::move(d1);
     s.m = dm;
     G->labels.insert("ser-replace");
@@ -443,7 +469,15 @@ void op_ser(Slot<T>& s, uint64_t mode) {
 }
 
 template <class T>
-void op_reset(Slot<T>& s) {
+void op_reset(Slot<T>& s, uint64_t mode) {
+  if ((mode & 3) == 3 && s.sk.get_num_samples() == s.sk.get_n() && s.sk.get_n() > 0) {
+    // reset of an object that came from a warm-up image (its arrays are sized by the image, not by k)
+    auto bytes = s.sk.serialize(0);
+    s.sk = var_opt_sketch<T>::deserialize(bytes.data(), bytes.size());
+    s.m.deser_warm = true;
+    check_sketch(s.sk, s.m, "deserialized-before-reset");
+    G->labels.insert("reset-of-deserialized-warmup");
+  }
   Obs o = observe(s.sk);
   if (s.m.deser_warm && o.hr_ok && o.cur < initial_alloc(o.k, static_cast<uint32_t>(o.lg_rf))) {
     G->labels.insert("reset-shrunk-alloc");
@@ -525,9 +559,9 @@ void op_union(Ctx<T>& c, const Op& op) {
     rm.n += s.m.n; rm.total += s.m.total;
     for (const auto& rg : s.m.member) rm.member.push_back(rg);
     if (!dup) for (uint32_t i = 0; i < so.h && i < so.s.size(); ++i) rm.exact_ids.push_back(so.s[i].first);
-    if ((mode & 2) && j == nin / 2) {
+    if (((mode >> 8) & 7) == 7 && j == nin / 2) {
       static const unsigned hdrs[2] = {0, 8};
-      const unsigned hdr = hdrs[(mode >> 6) & 1];
+      const unsigned hdr = hdrs[(mode >> 6) & 1];  // bit 6
       auto bytes = u.serialize(hdr);
       VF_CHECK(bytes.size() == hdr + u.get_serialized_size_bytes(), "union-ser-size", "union serialize gives " << bytes.size() << " bytes, get_serialized_size_bytes " << u.get_serialized_size_bytes());
       std::ostringstream os; u.serialize(os); const std::string st = os.str();
@@ -552,6 +586,10 @@ void op_union(Ctx<T>& c, const Op& op) {
   var_opt_sketch<T> res = safe_get_result(u, u_deser_sampling);
   if (u_deser_sampling) rm.deser_key = K_DESER_U;
   Obs ro = check_sketch_union(res, rm, dup, "union result");
+  if (ro.r > 0) {
+    for (uint32_t j = 1; j < ro.h && j < ro.s.size(); ++j) if (ro.s[(j - 1) / 2].second > ro.s[j].second) rm.unheaped = true;
+    if (rm.unheaped) G->labels.insert("union-result-H-not-heap");
+  }
   // labels
   G->labels.insert("union");
   if (any_sampling) G->labels.insert("union-sampling-input");
@@ -632,7 +670,7 @@ void prop_main(const Case& cs) {
       check_sketch(c.slots[b].sk, c.slots[b].m, "copy");
     } else if (op.name == "reset") {
       Slot<T>& s = c.slots[op.uarg(0) % 4];
-      op_reset(s);
+      op_reset(s, op.uarg(1));
       check_sketch(s.sk, s.m, "reset");
     } else if (op.name == "uni") {
       op_union(c, op);
@@ -745,10 +783,10 @@ rc::Gen<Case> gen_main() {
       {6, op4("bulk", slot, rc::gen::withSize([](int s) { return range(0, 12 + 3 * s); }), range(0, NPAT - 1), range(0, 1 << 30))},
       {1, op4("bulk", slot, range(200, 3000), range(0, NPAT - 1), range(0, 1 << 30))},
       {3, op2("upd", slot, range(0, 15))},
-      {2, op2("ser", slot, range(0, 63))},
+      {2, op2("ser", slot, range(0, 255))},
       {1, op3("copy", range(0, 3), range(0, 3), range(0, 2))},
-      {1, rc::gen::map(range(0, 99), [](int64_t x) { return x < 40 ? Op{"reset", {x & 3}} : Op{"upd", {x & 3, 9}}; })},
-      {5, op4("uni", range(0, 7), range(0, 1 << 30), range(0, 127), range(0, 3))},
+      {1, rc::gen::map(range(0, 99), [](int64_t x) { return x < 50 ? Op{"reset", {x & 3, (x >> 2) & 3}} : Op{"upd", {x & 3, 9}}; })},
+      {5, op4("uni", range(0, 7), range(0, 1 << 30), range(0, 2047), range(0, 3))},
   });
   return make_case({{"k0", k_gen()}, {"k1", k_gen()}, {"k2", k_gen()}, {"k3", k_gen()},
                     {"rf", range(0, 3)},
